@@ -171,6 +171,16 @@ func (s *Sim) buildPoolTx(kind int) *MTx {
 			}
 		}
 	}
+	if s.preferWitness {
+		// only witness-program outputs: the transaction carries witness data
+		var wc []wire.OutPoint
+		for _, op := range cands {
+			if recs[op].Kind == KP2WPKH {
+				wc = append(wc, op)
+			}
+		}
+		cands = wc
+	}
 	if len(cands) == 0 {
 		return nil
 	}
@@ -918,4 +928,61 @@ func (s *Sim) disconnectScenario() {
 		parent = y
 	}
 	s.r.Probe("disconnect-scenario")
+}
+
+// witnessFan puts n transactions with witness data into the pool: a root with
+// n pay-to-witness-key-hash outputs and one spender per output, each paying a
+// distinct fee.  Returns how many were admitted.
+func (s *Sim) witnessFan(n int) int {
+	w := s.w
+	tip := s.n.Tip()
+	pool := s.n.Pool
+	next := tip.Height + 1
+	if !w.active(tip, chaincfg.DeploymentSegwit) {
+		return 0
+	}
+	var op wire.OutPoint
+	var rec *utxoRec
+	for _, o := range w.UniOrder {
+		r, ok := tip.View[o]
+		if !ok || r.Kind == KOpReturn || r.Kind == KP2WPKH || r.Value < 20_000_000 || pool.CheckSpend(o) != nil {
+			continue
+		}
+		if r.Coinbase && next-r.Height < w.Net.Maturity {
+			continue
+		}
+		op, rec = o, r
+		break
+	}
+	if rec == nil {
+		return 0
+	}
+	p := &txPlan{Version: 2, Ins: []planIn{{Op: op, Rec: rec, Seq: 0xfffffffd}}}
+	rootFee := int64(30000)
+	each := (rec.Value - rootFee) / int64(n)
+	for i := 0; i < n; i++ {
+		p.Outs = append(p.Outs, &wire.TxOut{Value: each, PkScript: w.script(KP2WPKH, i%len(w.Keys))})
+	}
+	root := w.makeTx(p)
+	root.Fee = rec.Value - each*int64(n)
+	w.addTx(root)
+	s.Submit(root, 1)
+	if !pool.IsTransactionInPool(&root.Hash) {
+		return 0
+	}
+	admitted := 0
+	for i := 0; i < n; i++ {
+		crec := &utxoRec{Value: each, PkScript: root.Msg.TxOut[i].PkScript, Height: next, Kind: KP2WPKH, Key: i % len(w.Keys)}
+		fee := int64(15000 + 11*i)
+		cp := &txPlan{Version: 2, Ins: []planIn{{Op: wire.OutPoint{Hash: root.Hash, Index: uint32(i)}, Rec: crec, Seq: 0xffffffff}},
+			Outs: []*wire.TxOut{{Value: each - fee, PkScript: w.script(KP2PKH, 0)}}}
+		ch := w.makeTx(cp)
+		ch.Fee = fee
+		w.addTx(ch)
+		s.Submit(ch, 1)
+		if pool.IsTransactionInPool(&ch.Hash) {
+			admitted++
+		}
+	}
+	return admitted
 }
